@@ -355,6 +355,8 @@ class FlowGraph:
                             if p2 is not None and "p" not in p2:
                                 use_local(p2["l"], ds.b, dpos, comp)
                                 continue
+                        if rv["k"] == "bin":
+                            res.add(("b", rv["op"]))
                         ops2, places2 = self._rv_ops(rv)
                         for o in ops2:
                             use_op(o, ds.b, dpos)
